@@ -88,7 +88,7 @@ type output struct {
 func main() {
 	if len(os.Args) < 2 || os.Args[1] != "run" {
 		fmt.Fprintln(os.Stderr, "usage: vcodec run -in cases.json -out result.json")
-		os.Exit(2)
+		os.Exit(3)
 	}
 	fs := flag.NewFlagSet("run", flag.ExitOnError)
 	in := fs.String("in", "", "cases JSON")
@@ -97,12 +97,12 @@ func main() {
 	raw, err := os.ReadFile(*in)
 	if err != nil {
 		fmt.Fprintln(os.Stderr, err)
-		os.Exit(2)
+		os.Exit(3)
 	}
 	var inp input
 	if err := json.Unmarshal(raw, &inp); err != nil {
 		fmt.Fprintln(os.Stderr, err)
-		os.Exit(2)
+		os.Exit(3)
 	}
 	if !inp.Verbose {
 		slog.SetDefault(slog.New(slog.NewTextHandler(io.Discard, nil)))
@@ -116,9 +116,10 @@ func main() {
 	if inp.PayloadBits <= 0 {
 		inp.PayloadBits = 1
 	}
-	// backstop: the collector works hard before the process grows past this; a request the
-	// code should never make (above its own 1 GB cap) is detected by the allocation accounting
-	debug.SetMemoryLimit(6 << 30)
+	// keep the resident size of this process small (freed 1 GB buffers go back to the OS at once); requests
+	// the code should never make (above its own 1 GB cap) are detected by the allocation accounting, and the
+	// caller sets RLIMIT_AS so that a runaway request kills this process instead of the machine
+	debug.SetMemoryLimit(1536 << 20)
 
 	r := &runner{inp: &inp, res: &output{FieldBits: map[string]int{}, Kinds: map[string]int{}}, outPath: *out}
 	r.alpha = map[int]alphaRec{}
